@@ -412,8 +412,8 @@ pub fn property() -> Property {
         pre: None,
         post: None,
         parts: vec![
-            Box::new(Part { name: "direct", driver: Driver::Gen(strategy, 20_000, 250_000), prop, exhaustive: false }),
-            Box::new(Part { name: "archive", driver: Driver::Gen(archive_strategy, 1_000, 12_000), prop: prop_archive, exhaustive: false }),
+            Box::new(Part { name: "direct", driver: Driver::Gen(strategy, 20_000, 500_000), prop, exhaustive: false }),
+            Box::new(Part { name: "archive", driver: Driver::Gen(archive_strategy, 1_000, 24_000), prop: prop_archive, exhaustive: false }),
         ],
     }
 }
